@@ -673,7 +673,13 @@ pub fn run_hist<'p>(
         "c14" => {
             // the history is `<probe with predictor 0>,obs,<same probe with predictor 1>,obs`
             let obs_out: Vec<&String> = out.iter().filter(|o| o.contains(';')).collect();
-            if obs_out.len() == 2 && obs_out[0] != obs_out[1] {
+            // only histories of that shape are judged: two halves that differ in nothing but the predictor index
+            let all: Vec<&str> = ops.split(',').collect();
+            let symmetric = all.len() % 2 == 0 && {
+                let (h0, h1) = all.split_at(all.len() / 2);
+                h0.iter().zip(h1).all(|(a, b)| a == b || (a.starts_with("pred:") && b.starts_with("pred:")))
+            };
+            if symmetric && obs_out.len() == 2 && obs_out[0] != obs_out[1] {
                 fails.push(("C14".into(), format!("the deserialised predictor observes {} but the original observes {}", obs_out[1], obs_out[0])));
             }
             if out.iter().any(|o| o == "panic") {
